@@ -62,6 +62,7 @@ let bound_of s len =
   else let n = Z.of_string (String.sub s 1 (String.length s - 1)) in
     if s.[0] = 'i' then `I n else `E n
 let max_usize = Z.pred (Z.shift_left Z.one 64)
+let rec nat_of_int i = if i <= 0 then O else S (nat_of_int (i - 1))
 let resolve_range st en len =
   let a = match bound_of st len with `U -> Some Z.zero | `I n -> Some n | `E n -> if Z.equal n max_usize then None else Some (Z.succ n) in
   let b = match bound_of en len with `U -> Some (Z.of_int len) | `E n -> Some n | `I n -> if Z.equal n max_usize then None else Some (Z.succ n) in
@@ -104,6 +105,23 @@ let () =
            (* model of the boundary-checking operations *)
            let before = !prev in
            let len = List.length before in
+           (* what a drain yields: characters of the range from the front, from the back, the size hint of
+              the rest (s_drain, Utf8Enc.s_drain_spec) *)
+           (match op with
+            | ["drain"; st; en; take] ->
+              (match resolve_range st en (List.length !prev) with
+               | None -> ()
+               | Some (a, b) ->
+                 let t = int_of_string take in
+                 (match s_drain !prev a b (nat_of_int (t land 3)) (nat_of_int (t lsr 2)) with
+                  | SPanic -> ()
+                  | SRet d ->
+                    let left = List.length (List.concat d.sd_left) in
+                    let expect = Printf.sprintf "taken:%s:%s:(%d, Some(%d))" (hex_of_bytes (List.concat d.sd_front))
+                        (hex_of_bytes (List.concat d.sd_back)) ((left + 3) / 4) left in
+                    incr model_ops;
+                    if res <> "panic" && res <> expect then report_mismatch ~field:"drain_yields" ~model:expect ~impl:res))
+            | _ -> ());
            (* retain with a panicking predicate: the loop of string.rs at buffer level (StringRetain.v) *)
            (match op with
             | ["retain"; script] when String.contains script '2' ->
